@@ -23,4 +23,10 @@ CHECKS = {
         "level_note": "The outer quantifier (definition files) is sampled; the inner one (code points) is complete per definition. Trusts the 10-line reference model.",
         "technique": "reference-model monitor, exhaustive code-point sweep per generated definition",
     },
+    "C08": {
+        "level_text": "Exploration: random multi-batch edit histories are applied to the real InputBuffer and mirrored by a provenance-tracking model; the offset map is checked at every character boundary after every batch and the code-point tables after build(); tokenization-level begin_c/end_c are recomputed from the original string. Held on the counted histories.",
+        "design_ref": "DESIGN.md 6/C08",
+        "level_note": "Trusts the provenance model (30 lines) and Rust's char_indices; only non-empty ordered non-overlapping edits (the statement's domain).",
+        "technique": "history + executable model (provenance tracking) monitor on InputBuffer; recomputation oracle on tokenizer results",
+    },
 }
